@@ -97,6 +97,75 @@ theorem alongAxis_comm_linear (t : Tensor R) (a b : Nat) (f g : List R → List 
   · exact (alongAxis_comm_of_data t b a g f mb ma hba ha hg.len hf.len
       (fun A M C => comm_data_linear t.data A _ M _ C mb ma g f Ag Af hg hf)).symm
 
+/-! ## two axes at once: the lifted pair is a double sum -/
+
+/-- data-level: `f` (matrix `Af`) along the 2nd index, then `g` (matrix `Ag`) along the 4th index of
+`A × na × M × nb × C` data — the entry `(a, k, μ, l, c)` is `Σ_y Σ_x Ag l y · Af k x · D(a, x, μ, y, c)` -/
+theorem gather2_linear_getD (D : List R) (A na M nb C ma mb : Nat) (f g : List R → List R)
+    (Af Ag : Nat → Nat → R) (hf : IsLinear f na ma Af) (hg : IsLinear g nb mb Ag)
+    (a k μ l c' : Nat) (ha : a < A) (hk : k < ma) (hμ : μ < M) (hl : l < mb) (hc : c' < C) :
+    (gather (fibres (gather (fibres D A na (M * nb * C) f) A ma (M * nb * C)) (A * ma * M) nb C g)
+        (A * ma * M) mb C).getD (((a * ma + k) * M + μ) * mb * C + l * C + c') default =
+      ∑ y ∈ Finset.range nb, ∑ x ∈ Finset.range na,
+        Ag l y * (Af k x * D.getD (((a * na + x) * M + μ) * nb * C + y * C + c') default) := by
+  rw [gather_fibres_getD_linear _ _ _ _ _ g Ag hg _ l c' (idx_o_lt _ _ _ _ _ _ ha hk hμ) hl hc]
+  refine Finset.sum_congr rfl fun y hy => ?_
+  have hy' := Finset.mem_range.mp hy
+  have e2 : ((a * ma + k) * M + μ) * nb * C + y * C + c' =
+      a * ma * (M * nb * C) + k * (M * nb * C) + (μ * nb * C + y * C + c') := by grind
+  rw [e2, gather_fibres_getD_linear _ _ _ _ _ f Af hf a k _ ha hk (idx_i_lt _ _ _ _ _ _ hμ hy' hc), Finset.mul_sum]
+  refine Finset.sum_congr rfl fun x _ => ?_
+  have e4 : a * na * (M * nb * C) + x * (M * nb * C) + (μ * nb * C + y * C + c') =
+      ((a * na + x) * M + μ) * nb * C + y * C + c' := by grind
+  rw [e4]
+
+omit [CommSemiring R] in
+/-- the data of a tensor lifted along two axes `a < b`, as the nested gather over the
+`A × n_a × M × n_b × C` view of the row-major data -/
+theorem alongAxis2_data (t : Tensor R) (a b : Nat) (f g : List R → List R) (ma mb : Nat)
+    (hab : a < b) (hb : b < t.shape.length)
+    (hf : LenUniform f (t.shape.getD a 1) ma) (hg : LenUniform g (t.shape.getD b 1) mb) :
+    ∃ M, prod (t.shape.take b) = prod (t.shape.take a) * t.shape.getD a 1 * M ∧
+      ((t.alongAxis a f).alongAxis b g).data =
+        gather (fibres (gather (fibres t.data (prod (t.shape.take a)) (t.shape.getD a 1)
+            (M * t.shape.getD b 1 * prod (t.shape.drop (b + 1))) f) (prod (t.shape.take a)) ma
+            (M * t.shape.getD b 1 * prod (t.shape.drop (b + 1))))
+          (prod (t.shape.take a) * ma * M) (t.shape.getD b 1) (prod (t.shape.drop (b + 1))) g)
+          (prod (t.shape.take a) * ma * M) mb (prod (t.shape.drop (b + 1))) := by
+  obtain ⟨M, hM1, hM2⟩ := shape_split2 t.shape a b hab hb
+  have hne : a ≠ b := by omega
+  have hsa : (t.alongAxis a f).shape = t.shape.set a ma := alongAxis_shape t a f ma hf
+  have hnb : (t.alongAxis a f).shape.getD b 1 = t.shape.getD b 1 := by rw [hsa, getD_set_ne _ _ _ _ _ hne]
+  refine ⟨M, ?_, ?_⟩
+  · have h1 := hM1 (t.shape.getD a 1)
+    rw [set_getD_self] at h1
+    exact h1
+  · rw [alongAxis_eq (t.alongAxis a f) b g mb (by rw [hnb]; exact hg), hnb, hsa, alongAxis_eq t a f ma hf]
+    simp only []
+    have h2 := hM2 (t.shape.getD b 1)
+    rw [set_getD_self] at h2
+    rw [hM1 ma, h2, List.drop_set_of_lt (show a < b + 1 by omega)]
+
+/-- **two lifted linear maps are one double sum**: for axes `a < b` of a tensor, with
+`A = Π shape[:a]`, `C = Π shape[b+1:]` and `M = Π shape[a+1:b]`, the entry at multi-index
+`(α, k, μ, l, c)` of `alongAxis b g (alongAxis a f t)` is
+`Σ_y Σ_x Ag l y · Af k x · t(α, x, μ, y, c)`. -/
+theorem alongAxis2_linear_getD (t : Tensor R) (a b : Nat) (f g : List R → List R) (ma mb : Nat)
+    (Af Ag : Nat → Nat → R) (hab : a < b) (hb : b < t.shape.length)
+    (hf : IsLinear f (t.shape.getD a 1) ma Af) (hg : IsLinear g (t.shape.getD b 1) mb Ag) :
+    ∃ M, prod (t.shape.take b) = prod (t.shape.take a) * t.shape.getD a 1 * M ∧
+      ∀ α k μ l c, α < prod (t.shape.take a) → k < ma → μ < M → l < mb → c < prod (t.shape.drop (b + 1)) →
+        ((t.alongAxis a f).alongAxis b g).data.getD
+            (((α * ma + k) * M + μ) * mb * prod (t.shape.drop (b + 1)) + l * prod (t.shape.drop (b + 1)) + c) default =
+          ∑ y ∈ Finset.range (t.shape.getD b 1), ∑ x ∈ Finset.range (t.shape.getD a 1),
+            Ag l y * (Af k x * t.data.getD
+              (((α * t.shape.getD a 1 + x) * M + μ) * t.shape.getD b 1 * prod (t.shape.drop (b + 1))
+                + y * prod (t.shape.drop (b + 1)) + c) default) := by
+  obtain ⟨M, hM, hdata⟩ := alongAxis2_data t a b f g ma mb hab hb hf.len hg.len
+  refine ⟨M, hM, fun α k μ l c hα hk hμ hl hc => ?_⟩
+  rw [hdata]
+  exact gather2_linear_getD t.data _ _ M _ _ ma mb f g Af Ag hf hg α k μ l c hα hk hμ hl hc
+
 /-! ## energy: a per-fibre map that preserves the energy of every fibre preserves the energy of the tensor -/
 
 theorem sum_map_range {M : Type} [AddCommMonoid M] (g : ℕ → M) (n : ℕ) :
